@@ -35,6 +35,10 @@ type SpecEnv struct {
 	// the caller adds to its own count afterwards
 	calleeCalls map[string]string
 	localsInPost bool // evaluating the function's own ensures at a return: unknown identifiers may denote locals
+	// prev(e) in a bodyensures clause: e at the start of the iteration that just ended
+	prevSrc  map[string]Val
+	prevHeap map[string]string
+	srcOverride map[string]Val
 }
 
 type specError struct{ msg string }
@@ -281,6 +285,11 @@ func (e *SpecEnv) eval(x ast.Expr) Val {
 func (e *SpecEnv) tryIdent(name string) (Val, bool) {
 	if v, ok := e.bound[name]; ok {
 		return v, true
+	}
+	if e.srcOverride != nil {
+		if v, ok := e.srcOverride[name]; ok {
+			return v, true
+		}
 	}
 	if e.useSrc && e.fr != nil {
 		if v, ok := e.fr.src[name]; ok {
@@ -558,6 +567,15 @@ func (e *SpecEnv) binary(v *ast.BinaryExpr) Val {
 		e.litType = nil
 	}
 	av, bv := e.eval(v.X), e.eval(v.Y)
+	// lastresult/callarg of a callee that was not called on this path: the comparison says nothing (a fresh boolean)
+	for _, o := range []Val{av, bv} {
+		if sc, ok := o.(Scalar); ok && strings.HasPrefix(sc.T, "nocall!") {
+			switch v.Op {
+			case token.EQL, token.NEQ, token.LSS, token.LEQ, token.GTR, token.GEQ:
+				return Scalar{e.c.freshConst(e.s, "nocallcmp", SBool), SBool, boolT}
+			}
+		}
+	}
 	if outer.litType != nil && e.c.ar.bv {
 		// both operands untyped: literals take the hinted type
 		as, aok := av.(Scalar)
@@ -823,6 +841,14 @@ func (e *SpecEnv) callExpr(v *ast.CallExpr) Val {
 	boolT := types.Typ[types.Bool]
 	if id, ok := v.Fun.(*ast.Ident); ok {
 		switch id.Name {
+		case "prev":
+			if e.prevSrc == nil {
+				specFail("prev() is only allowed in bodyensures clauses")
+			}
+			n := e.sub()
+			n.heap = e.prevHeap
+			n.srcOverride = e.prevSrc
+			return n.eval(v.Args[0])
 		case "old":
 			if e.old == nil {
 				specFail("old() not allowed here")
@@ -954,7 +980,32 @@ func (e *SpecEnv) callExpr(v *ast.CallExpr) Val {
 			a, b := e.eval(v.Args[0]).(SliceV), e.eval(v.Args[1]).(SliceV)
 			k := e.idxTerm(e.eval(v.Args[2]))
 			return Scalar{fmt.Sprintf("(and (= %s %s) (= %s %s))", a.Arr, b.Arr, a.Off, e.c.idxAdd(b.Off, k)), SBool, boolT}
+		case "separate":
+			// separate(x, y): x and y (slices, pointers or interfaces holding pointers) live in different allocations, so
+			// nothing reachable by indexing/field selection from one overlaps the other
+			root := func(a Val) string {
+				switch x := a.(type) {
+				case Scalar:
+					return x.T
+				case SliceV:
+					return x.Arr
+				case IfaceV:
+					return x.PRef
+				}
+				specFail("separate of %T", a)
+				return ""
+			}
+			ra, rb := root(e.eval(v.Args[0])), root(e.eval(v.Args[1]))
+			return Scalar{fmt.Sprintf("(not (= (rootid %s) (rootid %s)))", ra, rb), SBool, boolT}
 		case "samearray":
+			a, okA := e.eval(v.Args[0]).(SliceV)
+			b, okB := e.eval(v.Args[1]).(SliceV)
+			if !okA || !okB {
+				specFail("samearray: both arguments must be slices")
+			}
+			_, _ = a, b
+			return Scalar{fmt.Sprintf("(and (= %s %s) (= %s %s))", a.Arr, b.Arr, a.Off, b.Off), SBool, boolT}
+		case "samearray_unused":
 			a, b := e.eval(v.Args[0]).(SliceV), e.eval(v.Args[1]).(SliceV)
 			return Scalar{fmt.Sprintf("(and (= %s %s) (= %s %s))", a.Arr, b.Arr, a.Off, b.Off), SBool, boolT}
 		case "in":
